@@ -10,6 +10,8 @@ use ckc_rs::hand_rank::{HandRank, HandRankClass, HandRankName};
 pub fn c06_value_to_class() {
     let v = sym::u16();
     let invalid = v == 0 || v > 7462;
+    // priming call on an unrelated arbitrary input: a memo / cache in front of a pure function would show here
+    let _ = HandRank::from(v.rotate_left(5) ^ 0x1234).is_a_valid_hand_rank();
     let name = HandRank::determine_name(&v);
     let class = HandRank::determine_class(&v);
     check!(name == NAME[cat_index(v)], "determine_name(v) is the category of ordinal v");
